@@ -3,7 +3,7 @@ import BoltonsVerif.C20.Model
 /-
 C20 line protocol.  One line = one whole history over `ni` counters (all created
 up front with the same threshold; counter 0 is current at the start):
-    <w> <nk> <op> <op> ...            one counter
+    <w> <nk> <op> <op> ...            one counter   (`<w>` may be `<p>/<q>`: exact threshold, see `parseW?`)
     <w> <nk>x<ni> <op> <op> ...       ni counters
   a<k>                  add(k)                                   on the current counter
   u<k>,<k>,...          update(iterable of keys)                 (`u-` = empty)
@@ -92,10 +92,20 @@ def parseNk? (s : String) : Option (Nat × Nat) :=
     | _, _ => none
   | _ => none
 
+/-- first token: the bucket width `<w>` (float thresholds: computed by the harness) or an exact threshold
+    `<p>/<q>` (Fraction / Decimal), from which the model's constructor derives the width -/
+def parseW? (s : String) : Option Nat :=
+  match splitOnChar s '/' with
+  | [a] => a.toNat?
+  | [a, b] => match a.toNat?, b.toNat? with
+    | some p, some q => (TC.ofThreshold p q : Option (TC Nat)).map (·.w)
+    | _, _ => none
+  | _ => none
+
 def handle (line : String) : String :=
   match words line with
   | w :: nk :: toks =>
-    match w.toNat?, parseNk? nk with
+    match parseW? w, parseNk? nk with
     | some w, some (nk, ni) =>
       if w = 0 then "bad-op" else
       let rec go (st : St) (toks : List String) (acc : List String) : Option (List String) :=
